@@ -9,7 +9,7 @@ from fractions import Fraction
 
 from ..gen.ledger import Opts, gen_ledger
 from ..probe import probe
-from ..util import rng_for, sha, iso
+from ..util import cap_viols, rng_for, sha, iso
 from . import ledger_core as lc
 
 PROP = "C14"
@@ -163,7 +163,7 @@ def run_lists(desc):
                           "detail": f"{od['ok'][:120]!r} then {str(ag.get('ok'))[:120]!r}", "case": case})
         if len(samples) < 2 and len(l) <= 3:
             samples.append({"transactions": l, "dsl": od["ok"]})
-    return {"evaluations": len(lists) * 5, "nontrivial_hashes": hashes, "counters": cnt, "violations": viols[:20], "samples": samples}
+    return {"evaluations": len(lists) * 5, "nontrivial_hashes": hashes, "counters": cnt, "violations": cap_viols(viols), "samples": samples}
 
 
 def run_currencies(desc):
@@ -192,7 +192,7 @@ def run_currencies(desc):
                 viols.append({"clause": f"{name}-currency-roundtrip", "signature": f"{name}-currency-roundtrip",
                               "detail": str(same_tx(x, y))[:200], "case": {"op": "roundtrip", "txs": [x]}})
     cnt["currency_codes"] = len(cs)
-    return {"evaluations": 4, "nontrivial_hashes": set(cs), "counters": cnt, "violations": viols[:20],
+    return {"evaluations": 4, "nontrivial_hashes": set(cs), "counters": cnt, "violations": cap_viols(viols),
             "samples": [{"codes": len(cs), "first": cs[:5]}]}
 
 
@@ -231,7 +231,7 @@ def run_reports(desc):
             if diffs:
                 viols.append({"clause": f"report-differs-{name}", "signature": f"report-differs-{name}",
                               "detail": "; ".join(diffs[:3]), "case": case})
-    return {"evaluations": len(reqs), "nontrivial_hashes": hashes, "counters": cnt, "violations": viols[:20], "samples": []}
+    return {"evaluations": len(reqs), "nontrivial_hashes": hashes, "counters": cnt, "violations": cap_viols(viols), "samples": []}
 
 
 def run_cli(desc):
@@ -276,7 +276,7 @@ def run_cli(desc):
                 viols.append({"clause": "cli-parse-is-not-the-json-rendering", "signature": "cli-parse-is-not-the-json-rendering",
                               "detail": f"exit {r2['exit']} {r2['stderr'][:150]}", "case": case})
         cnt["cli_parse_compared"] += 1
-    return {"evaluations": cnt["cli_ledgers"] * 2, "nontrivial_hashes": hashes, "counters": cnt, "violations": viols[:20], "samples": []}
+    return {"evaluations": cnt["cli_ledgers"] * 2, "nontrivial_hashes": hashes, "counters": cnt, "violations": cap_viols(viols), "samples": []}
 
 
 def run_mcp(desc):
@@ -351,7 +351,7 @@ def run_mcp(desc):
                 viols.append({"clause": "mcp-report-differs-from-library", "signature": "mcp-report-differs-from-library", "detail": "", "case": case})
             else:
                 cnt["mcp_reports_equal_library"] += 1
-    return {"evaluations": len(allids), "nontrivial_hashes": hashes, "counters": cnt, "violations": viols[:20], "samples": []}
+    return {"evaluations": len(allids), "nontrivial_hashes": hashes, "counters": cnt, "violations": cap_viols(viols), "samples": []}
 
 
 def run_shard(desc):
